@@ -255,6 +255,23 @@ pub fn omh_statistics(ctx: &mut Ctx) {
     }
     // the structural reason behind a deviation, as a deterministic observation: two occurrences of one element must not
     // receive identical values (a uniformly random ranking of the (element, occurrence) pairs has no ties)
+    // many occurrences of one element (more than 64, more than 256): the (element, occurrence) pairs must all draw
+    // different values — with m = 1 and l = 15 the store keeps the 15 smallest of them
+    for (x, reps) in [(7u64, 70usize), (7, 200), (99, 300), (u64::MAX / 5, 1100)] {
+        ctx.begin_case(&format!("omh ties: x repeated {} times, m=1 l=15 x={}", reps, x));
+        ctx.mark_nontrivial();
+        let mut p = P::new(1, 15);
+        let _ = p.hash_set(&vec![x; reps]);
+        let (ix, vals) = p.verif_store();
+        let mut sorted: Vec<u64> = vals.iter().map(|v| v.to_bits()).collect();
+        sorted.sort();
+        let dup = sorted.windows(2).filter(|w| w[0] == w[1]).count();
+        if dup > 0 {
+            ctx.oracle_failure(serde_json::json!({"kind":"impl_violates_property","key":"omh-tie:distant-occurrences-share-their-stream",
+                "what":"two different occurrences of one element receive the SAME hash value: the ranking of (element, occurrence) pairs is not uniform","x":x,"repetitions":reps,"m":1,"l":15,
+                "equal_values":dup,"indices":ix}));
+        }
+    }
     for x in [1u64, 2, 12345, u64::MAX / 3] {
         ctx.begin_case(&format!("omh ties: [x,x] m=1 l=2 x={}", x));
         ctx.mark_nontrivial();
